@@ -10,6 +10,7 @@ CONSTANTS
   Parts <- TraceParts
   NoConf = NoConf
   Merged = "-1"
+  Lookups = TRUE
   Static = FALSE
   PubChoices = {}
 INVARIANT TypeOK
